@@ -305,4 +305,43 @@ B('I-csv-writer-quotechar', ['C16'], 'frame.py', 'Frame.to_delimited',
 B('I-tsv-wrapper-constant', ['C16'], 'frame.py', 'Frame.to_tsv',
   "delimiter='\\t',", "delimiter=' ',", 'I.csv-dialect', 'to_tsv')
 
+# ---------------------------------------------------------------------------------- sort (C12) / index (C02)
+B('S-argsort-default-kind', ['C12'], 'series.py', 'Series.sort_values',
+  'order = np.argsort(cfs_values, kind=kind)', 'order = np.argsort(cfs_values)', 'I.sort-kind', 'Series.sort_values')
+B('S-kind-hardwired', ['C12'], 'container_util.py', 'sort_index_for_order',
+  'order = np.argsort(v, kind=kind)', "order = np.argsort(v, kind='quicksort')", 'I.sort-kind', 'sort_index_for_order')
+B('S-kind-dropped-in-forward', ['C12'], 'frame.py', 'Frame.sort_index',
+  'order = sort_index_for_order(self._index, kind=kind, ascending=ascending, key=key)', 'order = sort_index_for_order(self._index, kind=DEFAULT_SORT_KIND, ascending=ascending, key=key)', 'I.sort-kind', 'Frame.sort_index')
+B('S-duplicated-unstable', ['C12'], 'util.py', '_array_to_duplicated_sortable',
+  'o_idx = np.argsort(array, axis=None, kind=DEFAULT_STABLE_SORT_KIND)', 'o_idx = np.argsort(array, axis=None)', 'I.sort-kind', '_array_to_duplicated_sortable')
+B('S-lexsort-ascending-keys', ['C12'], 'container_util.py', 'sort_index_for_order',
+  'for i in range(cfs.depth-1, -1, -1)]', 'for i in range(cfs.depth)]', 'I.lexsort', 'sort_index_for_order')
+B('S-lexsort-frame-ascending', ['C12'], 'frame.py', 'Frame.sort_values',
+  'values_for_lex = [cfs[:, i] for i in range(cfs.shape[1]-1, -1, -1)]', 'values_for_lex = [cfs[:, i] for i in range(cfs.shape[1])]', 'I.lexsort', 'Frame.sort_values')
+B('S-descending-resort', ['C12'], 'series.py', 'Series.sort_values',
+  'if not ascending:\n            order = order[::-1]', 'if not ascending:\n            order = np.argsort(-cfs_values, kind=kind)', 'I.descending', 'Series.sort_values')
+B('S-ascending-ignored', ['C12'], 'frame.py', 'Frame.sort_columns',
+  'order = sort_index_for_order(self._columns, kind=kind, ascending=ascending, key=key)', 'order = sort_index_for_order(self._columns, kind=kind, ascending=True, key=key)', 'I.descending', 'Frame.sort_columns')
+B('S-labels-not-permuted', ['C12'], 'series.py', 'Series.sort_values',
+  'index = self._index[order]', 'index = self._index', 'E.pair[sort]', 'Series.sort_values')
+B('S-values-other-key', ['C12'], 'frame.py', 'Frame.sort_index',
+  'blocks = self._blocks.iloc[order]', 'blocks = self._blocks.iloc[order[::-1]]', 'E.pair[sort]', 'Frame.sort_index')
+B('S-axis-swap', ['C12'], 'frame.py', 'Frame.sort_columns',
+  'blocks = self._blocks[order]', 'blocks = self._blocks.iloc[order]', 'E.pair[sort]', 'Frame.sort_columns')
+B('S-name-dropped', ['C12'], 'frame.py', 'Frame.sort_index',
+  '                columns=self._columns,\n                name=self._name,', '                columns=self._columns,', 'E.pair[sort]', 'Frame.sort_index')
+N('S-reversed-range', ['C12'], 'container_util.py', 'sort_index_for_order',
+  'for i in range(cfs.depth-1, -1, -1)]', 'for i in reversed(range(cfs.depth))]')
+N('S-flip', ['C12'], 'container_util.py', 'sort_index_for_order',
+  'order = order[::-1]', 'order = np.flip(order)')
+B('X-dup-handler-swallows', ['C02'], 'index.py', 'Index.__init__',
+  'if self._map is None:\n                    raise ErrorInitIndexNonUnique(', 'if False:\n                    raise ErrorInitIndexNonUnique(', 'I.index-uniqueness', 'Index.__init__')
+B('X-loc-is-iloc-new-caller', ['C02'], 'index.py', 'Index._extract_iloc',
+  'return self.__class__(labels=labels, name=self._name)', 'return self.__class__(labels=labels, name=self._name, loc_is_iloc=self._map is None)', 'I.index-uniqueness', '_extract_iloc')
+B('X-contains-stale-array', ['C02'], 'index.py', 'Index.__contains__',
+  'return self._map.__contains__(value) #type: ignore', 'return value in self._labels', 'I.index-uniqueness', '__contains__')
+B('X-tree-test-dropped', ['C02', 'C05'], 'index_hierarchy.py', 'IndexHierarchy._from_type_blocks',
+  "                    if v != observed_last[d]:\n                        raise ErrorInitIndex(f'invalid tree-form for IndexHierarchy: {v} cannot follow {observed_last[d]} when {v} has already been defined.')\n                current = current[v]\n                observed_last[d] = v\n            elif d < depth_max:",
+  "                    pass\n                current = current[v]\n                observed_last[d] = v\n            elif d < depth_max:", 'I.tree-form', None)
+
 VARIANTS = V
